@@ -39,6 +39,7 @@ fn main() {
         "function_name" => h_misc::function_name(),
         "ram_bundle" => h_misc::ram_bundle(),
         "decode_extreme" => h_maps::decode_extreme(),
+        "decode_document" => h_maps::decode_document(),
         "adjust" => h_maps::adjust(false),
         "adjust_dups" => h_maps::adjust(true),
         _ => { eprintln!("unknown harness {name}"); std::process::exit(2); }
